@@ -64,6 +64,8 @@ type aCase struct {
 	AofBuf      int `json:"aofbuf,omitempty"`      // aof_file_buffer_size
 	RewriteSize int `json:"rewritesize,omitempty"` // aof_file_rewrite_size
 	EpochOff    int `json:"epochoff,omitempty"`    // >0: virtual clock starts EpochOff seconds before the wall clock
+	After       []aOp `json:"after,omitempty"`     // C07: locks taken on the restarted instance, before the second restart
+	TailTick    bool  `json:"tailtick,omitempty"`  // C16: the history ends with a clock step of 55..185 s (the case starts with a clock lag of 205 s)
 	DataDir     string `json:"-"`
 }
 
@@ -237,7 +239,11 @@ func (e *aEnv) onReply(client int, cmd *protocol.LockCommand, result uint8, lcou
 		return
 	}
 	r := e.reqs[idx]
-	e.logf("  <- c%d req#%d %v lcount=%d lrcount=%d lockid=%d data=%x", client, idx, aResName(result), lcount, lrcount, int(cmd.LockId[0])|int(cmd.LockId[1])<<8, d)
+	shown := fmt.Sprintf("%x", d)
+	if len(d) > 64 {
+		shown = fmt.Sprintf("%x..%x(%d bytes, fnv %016x)", d[:12], d[len(d)-8:], len(d), vHash(d))
+	}
+	e.logf("  <- c%d req#%d %v lcount=%d lrcount=%d lockid=%d data=%s", client, idx, aResName(result), lcount, lrcount, int(cmd.LockId[0])|int(cmd.LockId[1])<<8, shown)
 	r.Replies = append(r.Replies, rp)
 	e.mon.onReply(r, &rp)
 }
